@@ -283,7 +283,9 @@ impl<T: Eq + Hash> FrequentItemsSketch<T> {
     where
         T: Clone,
     {
-        if other.is_empty() {
+        // A sketch whose last purge removed every counter has no active items but still
+        // carries stream weight and error offset, so only a never-updated sketch is skipped.
+        if other.stream_weight == 0 {
             return;
         }
         let merged_total = self.stream_weight + other.stream_weight;
